@@ -233,10 +233,15 @@ func TestEnumSmallTrees(t *testing.T) {
 // ---- (b, c) random values, every one in several re-serializations --------------------------------------
 
 func TestRapidRespelled(t *testing.T) {
-	ev.Rule(chkRapid, "rapid: JSON objects/arrays to depth 6 (tricky and arbitrary Unicode strings, doubles by bit pattern / near powers of ten / boundary list); each value is serialized 6 times with drawn member order, whitespace, escape spelling (raw, short, \\uXXXX upper/lower, surrogate pairs, \\/) and number spelling (exponent/fixed forms, long mantissas, -0.0); oracle: every spelling canonicalizes to exactly the reference bytes; non-trivial = value with a non-ASCII/escaped name or string, or a non-integer / large / exponent-form number")
+	ev.Rule(chkRapid, "rapid: JSON objects/arrays to depth 6 (tricky and arbitrary Unicode strings, sibling names that differ in one bit of one code point, doubles by bit pattern / near powers of ten / boundary list), one value in eight large in one respect (9-64 members with long common name prefixes, 17-200 array elements, strings of 60-600 code points, 8-40 levels of nesting); each value is serialized 6 times with drawn member order, whitespace, escape spelling (raw, short, \\uXXXX upper/lower, surrogate pairs, \\/) and number spelling (exponent/fixed forms, long mantissas, -0.0); oracle: every spelling canonicalizes to exactly the reference bytes; non-trivial = value with a non-ASCII/escaped name or string, or a non-integer / large / exponent-form number")
 	ev.Rapid(t, chkRapid, 3000, 30000, func(t *rapid.T) {
 		v := gen.JSONTop(t, rapid.IntRange(1, 6).Draw(t, "depth"))
-		nt := interesting(v)
+		shape := "small"
+		if rapid.IntRange(0, 7).Draw(t, "large") == 0 {
+			// large in one respect: many members, a long array, long strings or deep nesting
+			v, shape = gen.JSONLarge(t)
+		}
+		nt := interesting(v) || shape != "small"
 		want, _ := refjcs.Canonical(v)
 		for i := 0; i < 6; i++ {
 			opts := refjcs.AllSpell
@@ -248,7 +253,7 @@ func TestRapidRespelled(t *testing.T) {
 			if pv, perr := refjcs.Parse(in); perr != nil || !refjcs.Equal(pv, v) {
 				t.Fatalf("harness bug: speller changed the value: %q (%v)", in, perr)
 			}
-			check(t, chkRapid, in, nt, fmt.Sprintf("spelling %d of value %s", i, ev.Trunc(string(want), 80)), fmt.Sprintf("respelled:%v", i > 0))
+			check(t, chkRapid, in, nt, fmt.Sprintf("spelling %d of value %s", i, ev.Trunc(string(want), 80)), fmt.Sprintf("respelled:%v", i > 0), "shape:"+shape)
 		}
 	})
 }
